@@ -24,11 +24,12 @@ pub fn prop() -> Prop {
     }
 }
 
-const ATOMS: [&str; 45] = [
+const ATOMS: [&str; 46] = [
     ".nokey", "null", "true", "false", "0", "1", "2", "3", "4", "-1", "1.5", "-0.5", "9007199254740992", "-9223372036854775808", "18446744073709551615", "\"\"", "\"a\"", "\"ab\"", "\"é\"", "\"aé😃\"", "\"12\"", "\"1e3\"",
     "\"a,b\"", "\"[1]\"", "[]", "[1]", "[1, 2, 3]", "[3, 1, 2]", "[\"a\", \"b\"]", "[[1], [2]]", "[1, \"a\", null]", "[true, false]", "{}", "{\"a\": 1}", "{\"a\": 1, \"b\": 2, \"c\": 3}",
     "{\"b\": 2, \"a\": 1}", "[\"b\", \"a\", \"b\"]", "{\"k\": \"é\", \"l\": [1, 2]}", "[\"\", \"a\", \"\"]",
     "{\"a\": 1, \"ab\": 2, \"\": 3}", "[[], {}, \"\"]", "\"null\"", "\"true\"", "[{\"a\": []}, {\"a\": {}}]", "{\"a\": 1, \"b\": 2}",
+    "[{\"a\": 1, \"b\": 2}, 3, {\"b\": 2, \"a\": 1}, 3.0, {\"a\": 1, \"b\": 2}]",
 ];
 
 const BODIES: [&str; 12] = [".", "(+ . 1)", "(len .)", "(string? .)", "true", "^", "(number? .)", ".nokey", "(stringify .)", "(> . 1)", "(concat . \"x\")", "null"];
@@ -36,7 +37,7 @@ const BODIES: [&str; 12] = [".", "(+ . 1)", "(len .)", "(string? .)", "true", "^
 /// additional atoms for particular functions (all positions)
 fn extra_atoms(name: &str) -> Vec<&'static str> {
     match name {
-        "match" | "extract_regex_group" => vec!["\"a+\"", "\"(a)(b)?\"", "\"[\"", "\"^$\"", "\"é\"", "\"(a)|(b)\"", "\"(x)?(a)\"", "\"(b)*a(é)?\"", "\"(?i)(B)|(?P<n>A)\"", "\"b\"", "\"xa\""],
+        "match" | "extract_regex_group" => vec!["\"a+\"", "\"(a)(b)?\"", "\"[\"", "\"^$\"", "\"é\"", "\"(a)|(b)\"", "\"(x)?(a)\"", "\"(b)*a(é)?\"", "\"(?i)(B)|(?P<n>A)\"", "\"b\"", "\"xa\"", "\"a{2}\"", "\"b{1,3}a\"", "\"a{\"", "\"aab\"", "\"a{2}\""],
         "format_time" => vec!["\"%Y-%m-%d %H:%M:%S\"", "\"%s\"", "\"%.3f|%A\"", "\"%Q\"", "\"%\"", "0", "1701611515", "-1.5", "1e12", "1e18", "86399.5"],
         "parse_time" | "parse_time_with_zone" => {
             vec!["\"%Y-%m-%d %H:%M:%S\"", "\"%Y-%m-%d %H:%M:%S %z\"", "\"2023-12-03 13:51:55\"", "\"2023-12-03 13:51:55 +0500\"", "\"1970-01-01 00:00:00\"", "\"%Q\"", "\"1969-12-31 23:59:58 -0130\""]
